@@ -34,7 +34,7 @@ ASSUMPTIONS = [
 
 
 def quad_map_rule(repo: Repo) -> RuleRun:
-    r = RuleRun(PROP, "C11.QUAD-MAP", floor=16, what="orientation, manifoldness, point usage and grid partition of every literal quad_map")
+    r = RuleRun(PROP, "C11.QUAD-MAP", floor=24, what="orientation, manifoldness, point usage and grid partition of every literal quad_map")
     r.exhaustive = True
     classes = sketches.sketch_classes_with_quad_map(repo)
     r.require(len(classes) >= 8, f"expected at least 8 sketches with a literal quad_map, found {[c.name for c in classes]}")
@@ -44,6 +44,17 @@ def quad_map_rule(repo: Repo) -> RuleRun:
         total += len(qm)
         problems, stats = quads.orientation_report(qm)
         r.check(not problems, cls, f"{stats}", f"{cls.name}.quad_map: " + "; ".join(problems), cls.methods["__init__"].node, key="orientation")
+        # every position handed to MappedSketch is used by a quad and no quad points beyond them
+        n_pos = None
+        if repo.cls("construct.flat.sketches.disk.DiskBase") in repo.mro(cls):
+            n_pos = len(_positions_layout(repo, cls)[0])
+        else:
+            for n in walk_shallow(cls.methods["__init__"].node):
+                if isinstance(n, ast.Assign) and isinstance(n.targets[0], ast.Name) and n.targets[0].id == "positions" and isinstance(n.value, ast.List):
+                    n_pos = len(n.value.elts)
+        r.require(n_pos is not None, f"{cls.name}: number of positions not derivable")
+        used = {i for q in qm for i in q}
+        r.check(used == set(range(n_pos)), cls, f"{n_pos} positions, all used", f"{cls.name}.quad_map uses point indexes {sorted(used - set(range(n_pos)))} beyond the {n_pos} positions / never uses {sorted(set(range(n_pos)) - used)}", cls.methods["__init__"].node, key="positions")
         faces = [Sym(f"f{i}") for i in range(len(qm))]
         grid = sketches.eval_grid(repo, cls, faces)
         flat = [repr(f) for tier in grid for f in tier]
@@ -292,7 +303,7 @@ def chain_source(repo: Repo) -> RuleRun:
             neg_t = any(isinstance(s, ast.Assign) and ast.unparse(s) == "length = -length" for s in br.body)
             neg_f = any(isinstance(s, ast.Assign) and "-length" in ast.unparse(s) for s in br.orelse)
             r.check(neg_t and not neg_f, fn, "length negated only when chaining from the start face", f"{fn.qualname}: length negated in start branch={neg_t}, in end branch={neg_f}", br, key="negate")
-            guards = [n for n in walk_shallow(fn.node) if isinstance(n, ast.If) and isinstance(n.test, ast.Compare) and ast.unparse(n.test.left) == "length" and isinstance(n.test.ops[0], (ast.Lt, ast.LtE)) and any(isinstance(b, ast.Raise) for b in n.body)]
+            guards = [n for n in walk_shallow(fn.node) if isinstance(n, ast.If) and isinstance(n.test, ast.Compare) and ast.unparse(n.test.left) == "length" and isinstance(n.test.ops[0], (ast.Lt, ast.LtE)) and isinstance(n.test.comparators[0], ast.Constant) and n.test.comparators[0].value == 0 and any(isinstance(b, ast.Raise) for b in n.body)]
             ok = bool(guards) and fn.node.body.index(guards[0]) < fn.node.body.index(br) if guards and guards[0] in fn.node.body else bool(guards)
             r.check(ok, fn, "negative length rejected before use", f"{fn.qualname} does not reject a negative length before selecting the sketch", fn.node, key="negative-length")
         if qn.endswith("Hemisphere.chain"):
